@@ -227,7 +227,7 @@ def run(ctx):
                 evals += 1
                 if h.string_digest() != rt.digest(fmt, b""):
                     fails.append({"what": f"streaming {fmt}: digest of a fresh hasher is not the digest of the empty input", "replay": {"entry": "streaming", "fmt": fmt, "chunks": []}})
-                chunks = [rnd.randbytes(rnd.choice([0, 1, 3, 64, 1000])) for _ in range(rnd.randint(1, 5))]
+                chunks = [rnd.randbytes(rnd.choice([0, 1, 3, 64, 1000, 512, 65536, 70001, 200000])) for _ in range(rnd.randint(1, 5))]
                 for i, c in enumerate(chunks):
                     h.update(c)
                     acc += c
